@@ -32,6 +32,8 @@ def flow_a(ctx, mine, cfgs):
         for clause, exp, obs in bad:
             if clause in mine:
                 ctx.violation(clause, {k: rec[k] for k in ("live", "tbl", "start", "msg", "mode", "vtlen")}, exp, impl.jsonable(obs))
+            elif clause.startswith("conformance:"):
+                ctx.divergence(clause, {k: rec[k] for k in ("live", "start", "msg", "mode")})
             else:
                 ctx.divergence("other-property clause %s failed" % clause)
     ctx.sample({"flow": "A", "record": [x for x in recs if len(x["msg"]) == 3 and x["mode"] == "fast"][5]})
